@@ -146,6 +146,33 @@ def documentedY (l : Logical) (r : Rep) : Bool :=
        r.dtype == .u16 || r.dtype == .u32 || r.dtype == .u64) &&
       (r.shape == .vec || r.shape == .col)
 
+/-! ### float targets together with a classification metric ("already binarized / one-hot encoded") -/
+
+/-- `xRFM.fit` with `tuning_metric` naming a classification metric and floating-point targets: training **and**
+validation targets are brought to float32, and a 1-D vector becomes a column; no label encoding takes place (the
+converter is built from the number of columns).  Two defects were repaired here by a `fix:` commit: before, only the
+training targets were reshaped (a `(n,)` validation vector then failed in the first refill after a split) and 64-bit
+floats were passed through to the solver (which raised on the dtype mismatch).  `none`: the branch is not taken. -/
+def coerceYFloatClass (r : Rep) : Option Canon :=
+  if r.dtype.isFloat then
+    some { dtype := .f32, shape := match r.shape with | .vec => .matN .one | .col => .matN .one | .mat => .matN .classes }
+  else none
+
+/-- Canonical pre-encoded targets: one `{0,1}` (or `{-1,1}`) column for binary, `K` one-hot columns for multiclass. -/
+def canonYFloatClass : Logical → Option Canon
+  | .binary => some { dtype := .f32, shape := .matN .one }
+  | .multi => some { dtype := .f32, shape := .matN .classes }
+  | _ => none
+
+/-- Documented pre-encoded representations: tensors or arrays, 32- or 64-bit floats; `(n,)` / `(n,1)` for binary,
+`(n,K)` for one-hot multiclass. -/
+def documentedYFloatClass (l : Logical) (r : Rep) : Bool :=
+  (r.dtype == .f32 || r.dtype == .f64) &&
+  match l with
+  | .binary => r.shape == .vec || r.shape == .col
+  | .multi => r.shape == .mat
+  | _ => false
+
 /-! ### outputs -/
 
 inductive Api | predict | predictProba
